@@ -318,10 +318,13 @@ package saml
 //@ ensures[C02,C03,C04] valid: result != nil ==> assertionValid(sp, result, possibleRequestIDs, TimeNow())
 //@ ensures[C01] covered: result != nil && sp.SignatureVerifier == nil ==> Covered(sp, *result)
 
-//@ -- randomBytes panics when the random source fails: an environment fault, assumed away (trusted contract)
+//@ -- randomBytes fills exactly n bytes from the configured source with io.ReadFull (a single Read may legally come up
+//@ -- short); it panics when the source fails: an environment fault, not counted (the unit's safety obligations are off)
 //@ contract randomBytes
-//@ trusted
+//@ requires[cfg] n: n >= 0
 //@ ensures[C12] length: len(result) == n
+//@ assert@call[C12] io.ReadFull #1 (r io.Reader, buf []byte) uses rv []byte fills_all_from_configured_source:
+//@    r == RandReader && sameBytes(buf, rv) && len(buf) == n
 
 //@ contract elementToBytes
 //@ requires[cfg] el: el != nil
@@ -646,6 +649,8 @@ package saml
 //@    result.RequestedAuthnContext == sp.RequestedAuthnContext && ns(result.IssueInstant) == ns(TimeNow())
 //@ -- C13: when signing is configured, a POST-binding request is signed or the call fails
 //@ ensures[C13] signed: err == nil && len(sp.SignatureMethod) > 0 && binding == HTTPPostBinding ==> result.Signature != nil
+//@ -- nothing is changed after signing: the returned message is exactly the value that was signed
+//@ ensures[C13] unchanged_after_signing: err == nil && len(sp.SignatureMethod) > 0 && binding == HTTPPostBinding ==> AuthnRequestSignedAs(*result, nil)
 
 //@ contract (*ServiceProvider).MakeLogoutRequest
 //@ requires[cfg] md: sp.IDPMetadata != nil
@@ -655,6 +660,7 @@ package saml
 //@ ensures[C12] fields: err == nil ==> result.Destination == idpURL && result.Version == "2.0" && result.Issuer != nil &&
 //@    result.Issuer.Value == spIssuer(sp) && result.NameID != nil && result.NameID.Value == nameID && ns(result.IssueInstant) == ns(TimeNow())
 //@ ensures[C13] signed: err == nil && sp.SignatureMethod != "" ==> result.Signature != nil
+//@ ensures[C13] unchanged_after_signing: err == nil && sp.SignatureMethod != "" ==> LogoutRequestSignedAs(*result, nil)
 
 //@ contract (*ServiceProvider).MakeLogoutResponse
 //@ requires[cfg] cert: len(sp.SignatureMethod) == 0 || sp.Certificate != nil
@@ -663,12 +669,14 @@ package saml
 //@ ensures[C12] fields: err == nil ==> result.Destination == idpURL && result.InResponseTo == logoutRequestID && result.Version == "2.0" &&
 //@    result.Issuer != nil && result.Issuer.Value == spIssuer(sp) && result.Status.StatusCode.Value == StatusSuccess
 //@ ensures[C13] signed: err == nil && sp.SignatureMethod != "" ==> result.Signature != nil
+//@ ensures[C13] unchanged_after_signing: err == nil && sp.SignatureMethod != "" ==> LogoutResponseSignedAs(*result, nil)
 
 //@ contract (*ServiceProvider).MakeArtifactResolveRequest
 //@ requires[cfg] cert: len(sp.SignatureMethod) == 0 || sp.Certificate != nil
 //@ assert@call[C12] Sprintf #1 (format string, a []interface{}) fresh_id: format == "id-%x" && idArgOK(a)
 //@ ensures[C12] fields: err == nil ==> result.Artifact == artifactID && result.Version == "2.0" && result.Issuer != nil && result.Issuer.Value == spIssuer(sp)
 //@ ensures[C13] signed: err == nil && len(sp.SignatureMethod) > 0 ==> result.Signature != nil
+//@ ensures[C13] unchanged_after_signing: err == nil && len(sp.SignatureMethod) > 0 ==> ArtifactResolveSignedAs(*result, nil)
 
 //@ -- C13: method / key-type consistency, or an error
 //@ go func isRSAMethod(m string) bool { return m == dsig.RSASHA1SignatureMethod || m == dsig.RSASHA256SignatureMethod || m == dsig.RSASHA384SignatureMethod || m == dsig.RSASHA512SignatureMethod }
@@ -709,18 +717,28 @@ package saml
 //@ requires[cfg] a: req != nil && sp.Certificate != nil
 //@ assert@call[C13] SignEnveloped #1 (ctx *dsig.SigningContext, el *etree.Element) signs_message: ElementOfAuthnRequest(req, el) && CtxMethod(ctx) == sp.SignatureMethod
 //@ ensures[C13] stored: err == nil ==> req.Signature != nil
+//@ records signed_value: AuthnRequestSignedAs(*req, err)
 //@ contract (*ServiceProvider).SignLogoutRequest
 //@ requires[cfg] a: req != nil && sp.Certificate != nil
 //@ assert@call[C13] SignEnveloped #1 (ctx *dsig.SigningContext, el *etree.Element) signs_message: ElementOfLogoutRequest(req, el) && CtxMethod(ctx) == sp.SignatureMethod
 //@ ensures[C13] stored: err == nil ==> req.Signature != nil
+//@ records signed_value: LogoutRequestSignedAs(*req, err)
 //@ contract (*ServiceProvider).SignLogoutResponse
 //@ requires[cfg] a: resp != nil && sp.Certificate != nil
 //@ assert@call[C13] SignEnveloped #1 (ctx *dsig.SigningContext, el *etree.Element) signs_message: ElementOfLogoutResponse(resp, el) && CtxMethod(ctx) == sp.SignatureMethod
 //@ ensures[C13] stored: err == nil ==> resp.Signature != nil
+//@ records signed_value: LogoutResponseSignedAs(*resp, err)
 //@ contract (*ServiceProvider).SignArtifactResolve
 //@ requires[cfg] a: req != nil && sp.Certificate != nil
 //@ assert@call[C13] SignEnveloped #1 (ctx *dsig.SigningContext, el *etree.Element) signs_message: ElementOfArtifactResolve(req, el) && CtxMethod(ctx) == sp.SignatureMethod
 //@ ensures[C13] stored: err == nil ==> req.Signature != nil
+//@ records signed_value: ArtifactResolveSignedAs(*req, err)
+//@ -- XSignedAs(v, err): Sign* returned err having signed the element built from the message, and v is the message value
+//@ -- it left behind (signature included). A message emitted with that exact value carries a signature over its content.
+//@ ghost func AuthnRequestSignedAs(v AuthnRequest, err error) bool
+//@ ghost func LogoutRequestSignedAs(v LogoutRequest, err error) bool
+//@ ghost func LogoutResponseSignedAs(v LogoutResponse, err error) bool
+//@ ghost func ArtifactResolveSignedAs(v ArtifactResolve, err error) bool
 
 //@ -- C13: the published metadata advertises the signing certificate exactly when request signing is configured
 //@ go func certsOK(cs []*x509.Certificate) bool { return forall(0, len(cs), func(k int) bool { return cs[k] != nil }) }
@@ -751,10 +769,16 @@ package saml
 //@ ensures[C14] filtered: err == nil ==> locationOK(binding, result) && (knownBinding(binding) ==> result == location)
 //@ contract (*Endpoint).UnmarshalXML
 //@ requires[cfg] d: d != nil
+//@ -- each location is checked, and replaced, by its own filtered value (C15: parsing preserves http(s) endpoints)
+//@ assert@call[C14,C15] checkEndpointLocation #1 (b string, l string) checks_location: b == m.Binding && l == m.Location
+//@ assert@call[C14,C15] checkEndpointLocation #2 (b string, l string) checks_response_location: b == m.Binding && l == m.ResponseLocation
 //@ ensures[C14] location: err == nil ==> locationOK(m.Binding, m.Location)
 //@ ensures[C14] response_location: err == nil && m.ResponseLocation != "" ==> locationOK(m.Binding, m.ResponseLocation)
 //@ contract (*IndexedEndpoint).UnmarshalXML
 //@ requires[cfg] d: d != nil
+//@ assert@call[C14,C15] checkEndpointLocation #1 (b string, l string) checks_location: b == m.Binding && l == m.Location
+//@ assert@call[C14,C15] checkEndpointLocation #2 (b string, l string) checks_response_location:
+//@    b == m.Binding && m.ResponseLocation != nil && l == *m.ResponseLocation
 //@ ensures[C14] location: err == nil ==> locationOK(m.Binding, m.Location)
 //@ ensures[C14] response_location: err == nil && m.ResponseLocation != nil ==> locationOK(m.Binding, *m.ResponseLocation) && *m.ResponseLocation != ""
 
